@@ -398,6 +398,11 @@ func evalConstructorDeclareStmt(vm *r.VM, node *syntax.FunctionDeclareStmt) erro
 	if !ok {
 		return zerr.InvalidClassType(className.GetLiteral())
 	}
+	// a predefined type (异常) is shared by every execution of the process: its
+	// constructor cannot be redefined, like any other predefined name
+	if module == r.NativeCodeModule {
+		return zerr.NameRedeclared(className.GetLiteral())
+	}
 
 	//// there are some different Factors from normal method function:
 	// 1. no outerScope (clousure scope)
